@@ -116,6 +116,9 @@ func (ex *Exec) strEq(a, b Str) *Term {
 	if a.sym == nil && b.sym == nil {
 		return tc.Bool(a.s == b.s)
 	}
+	if a.sym != nil && a.sym == b.sym {
+		return tc.True // identical object (also for opaque strings)
+	}
 	ex.checkOpaque(a, "==")
 	ex.checkOpaque(b, "==")
 	if a.sym == nil {
